@@ -104,9 +104,9 @@ func runMtA(r *runner) {
 					r.count("mta-"+kind, false)
 					fs := mtaCase(kind, dir, a.v, b.v, *vkit.Seed)
 					r.report(fs)
-					if a.label == "q-1" && b.label == "q-1" {
-						r.sample("mta-"+kind, map[string]interface{}{"part": "mta", "kind": kind, "dir": dir, "a": "q-1", "b": "q-1", "violations": len(fs)})
-					}
+					r.sample("mta-"+kind, func() interface{} {
+						return map[string]interface{}{"part": "mta", "kind": kind, "dir": dir, "a": a.label, "b": b.label, "a_value": a.v.String(), "b_value": b.v.String(), "violations": len(fs)}
+					})
 				}
 			}
 		}
